@@ -257,12 +257,19 @@ struct json_object *json_object_get(struct json_object *jso)
 	if (!jso)
 		return jso;
 
+#if defined(HAVE_ATOMIC_BUILTINS) && defined(ENABLE_THREADING)
+	{
+		/* Look at the result of the atomic operation only: a plain read
+		 * of the counter would race with other threads' updates.
+		 */
+		uint32_t new_count = __sync_add_and_fetch(&jso->_ref_count, 1);
+		// Don't overflow the refcounter.
+		assert(new_count != 0);
+		(void)new_count;
+	}
+#else
 	// Don't overflow the refcounter.
 	assert(jso->_ref_count < UINT32_MAX);
-
-#if defined(HAVE_ATOMIC_BUILTINS) && defined(ENABLE_THREADING)
-	__sync_add_and_fetch(&jso->_ref_count, 1);
-#else
 	++jso->_ref_count;
 #endif
 
@@ -274,11 +281,6 @@ int json_object_put(struct json_object *jso)
 	if (!jso)
 		return 0;
 
-	/* Avoid invalid free and crash explicitly instead of (silently)
-	 * segfaulting.
-	 */
-	assert(jso->_ref_count > 0);
-
 #if defined(HAVE_ATOMIC_BUILTINS) && defined(ENABLE_THREADING)
 	/* Note: this only allow the refcount to remain correct
 	 * when multiple threads are adjusting it.  It is still an error
@@ -286,9 +288,22 @@ int json_object_put(struct json_object *jso)
 	 * as that can result in the thread that loses the race to 0
 	 * operating on an already-freed object.
 	 */
-	if (__sync_sub_and_fetch(&jso->_ref_count, 1) > 0)
-		return 0;
+	{
+		uint32_t new_count = __sync_sub_and_fetch(&jso->_ref_count, 1);
+		/* Avoid invalid free and crash explicitly instead of (silently)
+		 * segfaulting.  (Checked on the result of the atomic operation:
+		 * a plain read of the counter would race with other threads.)
+		 */
+		assert(new_count != UINT32_MAX);
+		if (new_count > 0)
+			return 0;
+	}
 #else
+	/* Avoid invalid free and crash explicitly instead of (silently)
+	 * segfaulting.
+	 */
+	assert(jso->_ref_count > 0);
+
 	if (--jso->_ref_count > 0)
 		return 0;
 #endif
